@@ -229,7 +229,8 @@ def run_tlc(spec_dir, module, cfg, workdir, files=None, workers=None, simulate=N
             elif line.startswith('"GEN '):
                 res["printed"].append(unquote_tla(line)[4:])
             elif line.startswith("Error: Invariant ") or line.startswith("Error: Action property") or \
-                    line.startswith("Error: Temporal propert") or "is violated" in line or "was violated" in line:
+                    line.startswith("Error: Temporal propert") or "is violated" in line or "was violated" in line or \
+                    (line.startswith("Error: Postcondition") and "is false" in line):
                 res["violated"].append(line)
     with open(logf) as fh:
         raw = fh.read().count('"MISMATCH"')
